@@ -12,7 +12,9 @@ Two things are extracted from the *current* source of every encoder/reader that 
   definition over `Int` (`//`,`%` = `Int.fdiv`,`Int.fmod`; `&`,`|` = `pand`,`por` (bitwise and/or of the operands' `toNat`: all operands are ≥ 0); `<<`,`>>` by a literal =
   `* 2^k`, `Int.fdiv · 2^k`).  The property files prove that the model's tests compute exactly these.
 
-A construct outside the subset inside an integer expression raises `Unsupported` (= broken tie)."""
+An integer expression that uses a construct outside the subset gets no definition (a comment line instead), so the
+tie theorem that names it stops compiling (= broken tie of the property that owns that theorem); an unknown statement
+kind raises `Unsupported`."""
 import ast, os, re
 from lib import common
 from .py2lean import Unsupported, find_func
@@ -172,8 +174,15 @@ class Fn:
             if not self.is_int(e) or self.trivial(e):
                 return
         params = []
-        body = self.cond(e, params) if boolean else self.expr(e, params)
-        self.defs.append(("%s_%s%d" % (self.name, kind, k), params, "Bool" if boolean else "Int", body, ast.unparse(e)))
+        name = "%s_%s%d" % (self.name, kind, k)
+        try:
+            body = self.cond(e, params) if boolean else self.expr(e, params)
+        except Unsupported as ex:
+            # no definition is emitted: the tie theorem that names it (if any) stops compiling, which breaks exactly
+            # the property that depends on this expression; the skeleton still records the source text
+            self.defs.append((name, None, None, str(ex), ast.unparse(e)))
+            return
+        self.defs.append((name, params, "Bool" if boolean else "Int", body, ast.unparse(e)))
 
     def subexprs(self, node, top_done=()):
         """maximal non-trivial integer sub-expressions of `node` that were not already emitted as a whole"""
@@ -261,6 +270,9 @@ def emit(ns, fns, header):
         out.append(",\n".join("  " + lean_str(x) for x in fn.skel))
         out.append("]\n")
         for (name, params, ty, body, src) in fn.defs:
+            if params is None:
+                out.append("-- UNTRANSLATABLE %s: `%s` (%s)\n" % (name, src, body))
+                continue
             out.append("/-- `%s` -/" % src.replace("-/", "- /"))
             sig = (" (%s : Int)" % " ".join(params)) if params else ""
             out.append("def %s%s : %s := %s\n" % (name, sig, ty, body))
